@@ -57,10 +57,20 @@ GROUPS = {
     # N: next up / down (complete theorems); NP: next after / toward (PARTIAL theorems: NaN operands only, names end in _partial)
     'N': [('bid128_next.rs', 'bid128_nextup'), ('bid128_next.rs', 'bid128_nextdown')],
     'NP': [('bid128_next.rs', 'bid128_nextafter'), ('bid128_nexttoward.rs', 'bid128_nexttoward')],
-    # J: to-integer conversions (so far bid128_to_int32_rnint with a PARTIAL theorem; Impl/ImplRound.v holds the shared facts)
-    'J': [('bid128_to_int32.rs', 'bid128_to_int32_rnint')],
+    # J: to-integer conversions with complete value/status theorems (Impl/ImplRound.v holds the shared facts; the rninta block is
+    # generated from the rnint block by gen_toint_proofs.py)
+    'J': [('bid128_to_int32.rs', 'bid128_to_int32_rnint'), ('bid128_to_int32.rs', 'bid128_to_int32_rninta')],
     # H: the shared multi-word helpers of bid_internal.rs on their own (Impl/ImplHelpProofs.v: "helper <name> is exact")
     'H': [('bid_internal.rs', n) for n in HELPERS],
+    # K: the two comparison predicates that swap their operands (Impl/ImplCmp2.v, Impl/ImplCmp2Proofs.v); M: min/max against the
+    # acceptance list m_minmax (same files). As in G the three multiplication helpers are requested by name, so that
+    # ImplMul.v / ImplCmp.v find them in ImplGen.v when K or M is checked alone.
+    'K': [('bid_internal.rs', '__mul_64x128_to_192'), ('bid_internal.rs', '__mul_64x128_to192'),
+          ('bid_internal.rs', '__mul_128x128_to_256')] + [
+         ('bid128_compare.rs', 'bid128_quiet_equal'), ('bid128_compare.rs', 'bid128_quiet_not_equal')],
+    'M': [('bid_internal.rs', '__mul_64x128_to_192'), ('bid_internal.rs', '__mul_64x128_to192'),
+          ('bid_internal.rs', '__mul_128x128_to_256')] + [('bid128_minmax.rs', n) for n in (
+        'bid128_minnum', 'bid128_maxnum', 'bid128_minnum_mag', 'bid128_maxnum_mag')],
 }
 # helper functions translated in addition to the routines of a group (after them, so that the text generated for the
 # routines does not move): the shared lemma files ImplMul0.v / ImplDpd.v, which the files about the pack routines import,
